@@ -35,6 +35,7 @@ TIMEOUT = "env.config.sim.request_cancel_time_seconds"
 
 
 def run(ctx: Ctx):
+    ctx.attempt(row_refusals, ctx)
     ctx.attempt(admission, ctx)
     ctx.attempt(expiry, ctx)
     ctx.attempt(cancel, ctx)
@@ -260,6 +261,33 @@ def adds_once(ctx: Ctx):
             for c in flow.calls_in(p.value, "reduce"):
                 ok = len(c.args) >= 3 and flow.dump(c.args[1]) == outer.params[0] and flow.dump(c.args[2]) == outer.params[1]
     ctx.check(ok, "D3", "DU.adds-once", "update_requests_from_iterator folds over the given iterator starting from the given state", outer, why_bad="fold shape changed", construct="update_requests_from_iterator:fold")
+
+
+def row_refusals(ctx: Ctx):
+    """'Each request in the input enters the simulation exactly once': a row is turned away by Request.from_row only because a field is
+    missing or does not parse — never because of what its (well-formed) values say. Every error / raise path is decided by a missing
+    key, a failed conversion (an except handler) or the time parser's own error."""
+    fn = ctx.repo.func("nrel/hive/model/request/request.py", "Request.from_row")
+    row = fn.params[1]
+    n = 0
+    for p in flow.paths(fn.node):
+        is_err = p.kind == "raise" or (p.kind == "return" and flow.classify_result(p.value) in ("error", "reject"))
+        if not is_err:
+            continue
+        n += 1
+        if p.has_marker("except"):
+            ctx.ok("D1", "CMP.admit", "Request.from_row: refusal after a failed conversion", fn, p.end)
+            continue
+        deciding = [c for c in p.conds if isinstance(c.pol, bool) and c.test is not None and flow._const_truth(c.test) is None]
+        last = deciding[-1] if deciding else None
+        d = flow.dump(last.test) if last is not None else ""
+        ok = last is not None and ((d.endswith(f" not in {row}") and last.pol is True) or (d.endswith(f" in {row}") and last.pol is False) or d.startswith(f"{row}.get("))
+        ctx.check(ok, "D1", "CMP.admit", "Request.from_row refuses a row only for a missing field or a value that does not parse", fn, p.end,
+                  why_ok=f"decided by `{d[:60]}`",
+                  why_bad=f"a row whose fields are present and parse is refused because `{('' if last is None or last.pol else 'not ') + d[:140]}`: that request never enters the simulation "
+                          f"(no add event, never waiting, never cancelled)",
+                  construct=f"Request.from_row:refuses:{d[:80]}")
+    ctx.require(n >= 7, f"Request.from_row: only {n} refusing paths seen")
 
 
 def _row_stream(e: ast.AST) -> bool:
